@@ -67,8 +67,14 @@ theorem euclidean_src (T : Transc α) (x y : List α) (h : x.length = y.length) 
     Src.euclidean T x y = Metrics.euclidean T x y := by
   unfold Src.euclidean Metrics.euclidean Metrics.diffs
   simp only []
-  rw [foldl_range_getD₂ x y 0 0 h (fun st a b => st + Src.sq (a - b))]
-  simp [sumL, List.foldl_map, Src.sq]
+  -- the *model* side is turned into index-loop form (its body is stable); the two loop bodies are then compared by `simp`,
+  -- so that body-level rewrites of the source (a temporary variable, `d * d` for `d ** 2`) are followed
+  have hm : sumL (((x.zip y).map (fun p => p.1 - p.2)).map (fun d => d * d))
+      = (List.range x.length).foldl
+          (fun st i => st + (x.getD i 0 - y.getD i 0) * (x.getD i 0 - y.getD i 0)) 0 := by
+    rw [foldl_range_getD₂ x y 0 0 h (fun st a b => st + (a - b) * (a - b))]
+    simp [sumL, List.foldl_map]
+  rw [hm] <;> (congr 1 <;> (apply List.foldl_ext; intro st i _; simp [Src.sq]))
 
 theorem manhattan_src (x y : List α) (h : x.length = y.length) :
     Src.manhattan x y = Metrics.manhattan x y := by
